@@ -565,8 +565,8 @@ def run(env, res, hist, prop, threads=False):
     _eng, root = c04.engine()
     t0 = time.time()
     with Recorder() as rec:
-        rp = None
-        if env.get('replay'):
+        rp = env.get('replay_case')
+        if rp is None and env.get('replay'):
             rp = json.load(open(env['replay']))
             rp = rp.get('case') or rp
             if not (isinstance(rp, dict) and rp.get('part') == 'evalstore'):
@@ -582,7 +582,7 @@ def run(env, res, hist, prop, threads=False):
                 if f:
                     res.fail(f[0], 'evalstore-' + f[1], 'write log: ' + f[2], replay_of(ast, doc, prop))
             return
-        n = (500 if tier == 'quick' else 6000)
+        n = ((1500 if prop == 'C09' else 900) if tier == 'quick' else 6000)
         depth = 4 if tier == 'quick' else 5
         batch = [(parse(t), {'a': 1, 'xs': (1, 2), 's': 'q'}) for t in FIXED]
         for _ in range(n):
@@ -616,5 +616,5 @@ def run(env, res, hist, prop, threads=False):
                  names_written=nwr, contexts_per_evaluation={str(k): v for k, v in sorted(sizes.items())},
                  constructs={k: v for k, v in sorted(cons.items())})
         if threads and not res.failures:
-            run_threads(rec, drv, res, rng, root, 40 if tier == 'quick' else 600, h, prop, 3)
+            run_threads(rec, drv, res, rng, root, 80 if tier == 'quick' else 600, h, prop, 3)
     h['seconds'] = round(time.time() - t0, 1)
